@@ -1,5 +1,5 @@
 # replay of a bounded stand-in violation: re-run native/c01_backends.py
 import sys
-print('Catstate(0.8, 0.4, p=0.0); Rgate; BSgate on bosonic/complex: quadrature moments / photon numbers [0.0, 0.0, 0.0, 0.0, 0.0, 0.0, 0.2115, 0.15] differ from the fock simulator [0.0, 0.0, 0.0, 0.0, 0.0, 0.0, 0.2115, 0.15]')
+print("S2gate(0.25, 0.5) | (q[1], q[0]) of 2 on fock: ('quad', 0, 0.0) = [0.0553, 0.6923], the documented action gives [0.2455, 0.8304]")
 print('REPLAY-VIOLATION')
 sys.exit(1)
